@@ -121,7 +121,7 @@ def run_shard(args):
         props.run_corpus(prop, res)
     guarded(prop, res, props.CHECKS[prop])
     for (txt, g_) in core.INTERLEAVE_FAILURES[:20]:
-        res.fail("property", "%s (interleaving): %s" % (prop, txt), dict(type="game", game=g_))
+        res.fail("property", "%s (call discipline): %s" % (prop, txt), dict(type="game", game=g_))
     core.INTERLEAVE_FAILURES.clear()
     return dict(evaluations=res.evaluations, nontrivial=list(res.nontrivial), samples=res.samples, hist=res.hist,
                 failures=res.failures, traces=res.traces, notes=res.notes, rule=res.rule)
@@ -179,7 +179,10 @@ def main():
             props.run_corpus(prop, res)
             guarded(prop, res, props.CHECKS[prop])
         for (txt, g_) in core.INTERLEAVE_FAILURES[:20]:
-            res.fail("property", "%s (interleaving): %s" % (prop, txt), dict(type="game", game=g_))
+            res.fail("property", "%s (call discipline): %s" % (prop, txt), dict(type="game", game=g_))
+        for k_, v_ in core.CALL_STATS.items():
+            if v_:
+                res.hist["rate_calls_" + k_] = v_
         if core.REENTRANT_STATS["calls"]:
             res.hist["rate_calls_with_interleaved_nested_call"] = res.hist.get("rate_calls_with_interleaved_nested_call", 0) + core.REENTRANT_STATS["calls"]
         import p_pred
